@@ -122,10 +122,35 @@ class CoopExecutor:
             self.cond.notify_all()
 
 
-def patches() -> Dict[str, Dict[str, Any]]:
-    """DESIGN Appendix B, checked against the imports of the pinned modules"""
+class EarlyCondition(shims.Condition):
+    """"two clocks": Condition.wait measures its timeout on the monotonic clock, Scheduler.now is the wall clock.  Here a timed
+    wait longer than `eps` expires `eps` EARLY on the controlled clock (which is what scheduler.now keeps reading), as happens
+    when the wall clock runs slow or is stepped back during the wait.  Code that re-checks the due time against scheduler.now
+    waits again - the remaining wait is <= eps and therefore exact, so there is progress - and starts the action on time;
+    code that takes the expiry of the wait as proof that the item is due starts it `eps` early (NotEarly).
+    harness/shims.py is untouched: this subclass only shortens the timeout it hands to shims.Condition.wait."""
+    eps = 0.25
+
+    def wait(self, timeout: Optional[float] = None):
+        if timeout is not None and timeout > self.eps:
+            timeout = timeout - self.eps
+        return super().wait(timeout)
+
+
+class _EarlyNS(shims._ThreadingNS):
+    Condition = EarlyCondition
+
+
+early_threading_ns = _EarlyNS()
+
+
+def patches(early: bool = False) -> Dict[str, Dict[str, Any]]:
+    """DESIGN Appendix B, checked against the imports of the pinned modules.  early=True: the two-clocks variant for the
+    schedulers built on Condition.wait (EventLoop, and NewThread / ThreadPool through it).  threading.Timer stays exact: a
+    TimeoutScheduler consults no clock but its timer, so an early timer is outside what its code could ever notice."""
+    ns = early_threading_ns if early else shims.threading_ns
     return {
-        "reactivex.scheduler.eventloopscheduler": {"threading": shims.threading_ns},     # import threading
+        "reactivex.scheduler.eventloopscheduler": {"threading": ns},                     # import threading
         "reactivex.scheduler.newthreadscheduler": {"threading": shims.threading_ns},     # import threading (Event)
         "reactivex.scheduler.timeoutscheduler": {"Timer": shims.Timer},                  # from threading import Lock, Timer
         "reactivex.scheduler.threadpoolscheduler": {"ThreadPoolExecutor": CoopExecutor},  # from concurrent.futures import ...
@@ -290,7 +315,7 @@ def explore_scenario(args) -> Dict[str, Any]:
     sc, bound, per_level, nrandom, seed = args
     traces: Dict[str, List[Any]] = {}
     stats = {"executions": 0, "deadlocks": 0, "steplimit": 0, "thread_exc": 0, "preempting": 0}
-    with shims.patched(extra=patches()):
+    with shims.patched(extra=patches(bool(sc.get("early")))):
         ex = fastsched.LevelExplorer(bound=bound, per_level=tuple(sc.get("per_level") or per_level), random_schedules=nrandom, seed=seed)
         last = {}
 
@@ -356,6 +381,9 @@ def el_scenarios(tier: str) -> List[Dict[str, Any]]:
     for b in base:
         for ex in (False, True):
             out.append(dict(b, kind="eventloop", exit=ex))
+    early_for = {"timed-imm-cancel", "due-order", "cancel-before-due", "busy-loop", "restart-timed", "timed-chain"}
+    out += [dict(b, name=b["name"] + "+early-wait", kind="eventloop", exit=ex, early=True)
+            for b in base if b["name"] in early_for for ex in ((False, True) if tier != "quick" else (b["name"] == "due-order",))]
     return out + handover_scenarios(tier)
 
 
@@ -406,7 +434,12 @@ def timer_scenarios(tier: str) -> List[Dict[str, Any]]:
         ]
     variants = [dict(kind="timeout"), dict(kind="newthread"), dict(kind="threadpool"), dict(kind="threadpool", workers=1),
                 dict(kind="eventloop", exit=False), dict(kind="eventloop", exit=True)]
-    return [dict(b, **v) for b in base for v in variants]
+    out = [dict(b, **v) for b in base for v in variants]
+    # two-clocks share: timed waits of the event-loop based schedulers expire 0.25 s early while scheduler.now reads the controlled clock
+    early_for = {"cancel-before-due", "abs-past-future", "recursive", "zero-delay", "late-cancel", "busy"}
+    early_variants = [dict(kind="eventloop", exit=False), dict(kind="eventloop", exit=True), dict(kind="newthread"), dict(kind="threadpool")]
+    out += [dict(b, name=b["name"] + "+early-wait", early=True, **v) for b in base if b["name"] in early_for for v in early_variants]
+    return out
 
 
 # ---- labels for rejected traces (reporting only; the verdict is TLC's) ----------------------------------------------
@@ -570,7 +603,7 @@ def replay_record(rec: Dict[str, Any], module: str, consts: Dict[str, Any], inva
         if i < len(dec) and dec[i] in en:
             return dec[i]
         return cur if cur in en else en[0]
-    with shims.patched(extra=patches()):
+    with shims.patched(extra=patches(bool(sc.get("early")))):
         ds, tr = run_scenario(sc, choose)
     print("scenario:", json.dumps(sc))
     for k, ev in enumerate(tr):
